@@ -113,11 +113,15 @@ def work(spec):
     part = harness.new_partial()
     ins = list(inputs(spec))
     budget = 400
-    cases = [{"mode": "macro", "main": m, "files": f, "opts": [("passes", budget), ("streams", 1), ("maxevents", 400)]} for f, m, _ in ins]
+    cases = [{"mode": "macro", "main": m, "files": f, "opts": [("passes", budget), ("streams", 1), ("maxevents", 400), ("reapply", 1)]} for f, m, _ in ins]
     outs, _ = common.run_batch(cases)
     for (files, main, nstreams), case, o in zip(ins, cases, outs):
         part["evals"] += nstreams
         if common.abnormal(ID, case, o, part, "while expanding macros"):
+            continue
+        if o.get("reapply_same") is False:
+            part["violations"].append({"signature": "second-expansion-differs", "message": "apply_macros called again with the same definitions and the same tokens "
+                                       "returns another stream / other errors than the first time", "case": common.slim_case(case)})
             continue
         rp = macrocommon.replay(files, main, o, budget)
         if rp.nj:
@@ -129,6 +133,7 @@ def work(spec):
             continue
         part["stats"]["rewrites-replayed"] += rp.steps
         part["stats"]["ties-on-all-keys"] += rp.ties
+        part["stats"]["second-expansions-identical"] += 1 if o.get("reapply_same") else 0
         part["stats"]["rewrites-whose-pass-number-is-not-their-index"] += rp.pass_mismatch
         part["stats"]["streams:" + (spec["family"] if spec["kind"] == "fam" else "random")] += nstreams
         if rp.final_rewritable is False:
